@@ -193,6 +193,40 @@ def judge_sim_path_covered(v, scen, impl, model, name, d1_text):
     return nviol
 
 
+def judge_mc_transparent(v, scen, impl, name):
+    """C09, implementation against itself: the System a ModelChecker was created from is untouched — the simulation's
+    observations are the same with and without the `mc run` in the middle"""
+    from .common import run_blocks, VH, JOBS, chunks, STALL_S
+    from concurrent.futures import ThreadPoolExecutor
+    MC = ("run ", "E ", "C ", "T ", "stat ", "NETS ")
+    plain = [(nm, [l for l in lines if not l.startswith(("mc ", "refenum", "cb "))]) for nm, lines in scen
+             if any(l.startswith("mc ") for l in lines) and not any(l.startswith("cb ") for l in lines)]
+    parts = chunks([sim_suite.block(nm, l) for nm, l in plain], JOBS)
+    out = {}
+    with ThreadPoolExecutor(max_workers=JOBS) as ex:
+        for o, rc, err in ex.map(lambda part: run_blocks([VH, "sim"], part, STALL_S), parts):
+            out.update(o)
+    lines_of = dict(scen)
+    nviol = ncmp = 0
+    for nm, _ in plain:
+        a = [l for l in impl.get(nm, []) if not l.startswith(MC)]
+        b = out.get(nm, [])
+        if not a or any("capped" in l or "panic" in l or l.endswith("-timeout") for l in impl.get(nm, []) + b):
+            continue
+        ncmp += 1
+        if a != b:
+            k = next((j for j, (x, y) in enumerate(zip(a, b)) if x != y), min(len(a), len(b)))
+            if nviol < 3:
+                v.violation(f"{name}-transparent-{nm}.txt",
+                            f"# property {v.pid}: creating and running a ModelChecker changed the System it was created from: the simulation's "
+                            f"observations differ from the same simulation without the `mc run` (first difference at observation {k})\n"
+                            f"#   with mc:    {(a[k] if k < len(a) else '-')[:400]}\n#   without mc: {(b[k] if k < len(b) else '-')[:400]}\n"
+                            f"# replay: /verif/check {v.pid} --replay <this file>\n" + "".join(l + "\n" for l in lines_of[nm]))
+            nviol += 1
+    v.coverage.setdefault(name, {}).update({"transparency_scenarios_compared": ncmp, "transparency_violations": nviol})
+    return nviol
+
+
 def fp_probe(v, tier, seed, name="fp_probe"):
     """finding D16: the snapshot's remaining timer delay is a rounded difference.  `vh fpprobe n` runs, on the real code, n clock /
     firing-time pairs with a rounding gap (fl(c + fl(t - c)) < t) and n control pairs without one: snapshot, a handler sets a timer
